@@ -35,12 +35,16 @@ TBurst ==
   /\ Ev.n200 >= 1
   /\ \A s \in {Ev.statuses[i] : i \in DOMAIN Ev.statuses} : s \in {200, 429}
 (* a server without a registered GCA has no GCA key file: the request fails, nothing is produced *)
+(* archives of large files served concurrently: each is a well-formed zip of record-aligned prefixes *)
+TArchiveBig ==
+  /\ Ev.a = "ArchiveBig" /\ Ev.status \in {200, 429}
+  /\ (Ev.status = 200 => Ev.zipok /\ Ev.prefix /\ Ev.aligned)
 TNoArchive == Ev.a = "Archive" /\ Ev.status = 500 /\ ~Ev.registered
 TNoise == Ev.a \in {"DriverNote"}
 TNext ==
   /\ l <= Len(Trace) /\ l' = l + 1
   /\ (IF l = DiagLine THEN PrintT(<<"DIAG", l, Ev>>) ELSE TRUE)
-  /\ (TArchive \/ TNoArchive \/ TBurst \/ TNoise)
+  /\ (TArchive \/ TNoArchive \/ TBurst \/ TArchiveBig \/ TNoise)
 TSpec == l = 1 /\ [][TNext]_l
 Accepted == TLCGet("stats").diameter - 1 = Len(Trace)
 =============================================================================
